@@ -122,6 +122,27 @@ def add_transparent(sc: dict, rnd: random.Random) -> dict:
     return sc2
 
 
+def bump_sweep() -> list[dict]:
+    """Code-side sweep that does not depend on the model's idea of where the awaits are: a get (fresh or stale
+    cached counter, forced or not) with the controller's schedule changed right before exchange n of that
+    transfer, for every n up to well past the exchanges the current code makes (a trigger that is never reached
+    is flushed after the transfer), plus the same around a write; forced follow-ups on every zone then show what
+    was filed under which change counter."""
+    out = []
+    for z, other in ((1, 2), (2, 1)):
+        for n in range(0, 8):
+            for pre in ((), (["heard6", 0, 0, 0, 0, 0, -1],), (["heard6", 0, 0, 0, 0, 0, -1], ["age", 0, 0, 0, 0, 0, -1])):
+                for force in (0, 1):
+                    h = [list(e) for e in pre] + [["start", 1, z, 0, force, 0, -1], ["bump", z, 0, 0, 0, 1, n],
+                                                  ["fu", z, 0, 0, 0, 0, -1], ["fu", other, 0, 0, 0, 0, -1]]
+                    out.append({"zones": [1, 2], "h": h})
+            # a second, unforced get of the same zone after the first (cached result must not outlive the counter)
+            h = [["heard6", 0, 0, 0, 0, 0, -1], ["start", 1, z, 0, 0, 0, -1], ["bump", z, 0, 0, 0, 1, n],
+                 ["start", 2, z, 0, 0, 1, -1], ["fu", z, 0, 0, 0, 0, -1]]
+            out.append({"zones": [1, 2], "h": h})
+    return out
+
+
 def _exec(sc: dict) -> tuple[dict, int, int, int]:
     fakes.quiet_logging()
     rr = X.run_scenario(sc)
@@ -228,6 +249,7 @@ def main(tier: str, replay: str | None) -> None:
         rnd.shuffle(enum)
         enum = enum[:cap]
     scen += [("enumerate", s) for s in enum]
+    scen += [("bump-sweep", s) for s in bump_sweep()]
     # transparent-fault variants (slow / duplicated replies) of a sample
     base = [s for _, s in scen]
     for s in rnd.sample(base, min(len(base), 120 if quick else 2000)):
